@@ -64,3 +64,12 @@ CHECKS["C01"] = (
     "DESIGN.md#c01",
 )
 NA.pop("C01", None)
+
+CHECKS["C09"] = (
+    "other",
+    "static analysis: effect analysis (direct stores, stores through local aliases and loop targets, reaching definitions) locates every writer of forest state; CFG dominators / post-dominators decide hash-reset, memo-clear and coupling rules",
+    "Decides for all histories the representation invariants SceneGraph.get relies on: every write of EnforcedForest.parents/edge_data/node_data (from inside or outside the class) is covered by a hash reset on every path; topology changes clear the path memo; re-parenting and node removal keep parents and edge_data coupled; the writer set is closed; the transform memo is keyed on the forest hash, stores read-only matrices, is never handed to a copy unverified, and updates are skipped only under an absolute tolerance. The matrix product itself and kwargs_to_matrix numerics are not decided (rotation builders: C19).",
+    "Trusted: E1 aliasing model and receiver typing conventions; frozen tables of classified external writers and forest replacers; exceptions between a write and a later reset are not modelled.",
+    "DESIGN.md#c09",
+)
+NA.pop("C09", None)
